@@ -202,6 +202,14 @@ func wrapInt(c constant.Value, t types.Type) constant.Value {
 }
 
 func (in *Interp) binop(op token.Token, l, r Val, t types.Type, st *State, pos token.Pos) Val {
+	if in.mirror && op == token.SUB && l.FromB && st != nil && st.cur >= 0 {
+		// b - '0': the dispatched byte is used as a decimal digit
+		if lv, ok := l.isInt(); ok && int(lv) == st.cur {
+			if rv, ok := r.isInt(); ok && rv == '0' && !r.FromB {
+				st.digitUse = true
+			}
+		}
+	}
 	v := in.binop0(op, l, r, t, st, pos)
 	if (l.FromB || r.FromB) && v.K == kConst {
 		v.FromB = true
@@ -758,6 +766,9 @@ func (in *Interp) applyCall(x *ast.CallExpr, callee *types.Func, recvExpr ast.Ex
 	}
 	if in.mirror && in.mirrorFns[callee] && len(x.Args) == 1 && in.isDispatchedByte(x.Args[0], st) {
 		st.mirrored = true
+	}
+	if in.mirror && in.digitFns[callee] && len(x.Args) == 1 && in.isDispatchedByte(x.Args[0], st) {
+		st.digitUse = true
 	}
 	if callee.Name() == "AsNum" || callee.Name() == "AsNode" {
 		return []evalRes{{st, Val{K: kTop, S: "number"}}}
